@@ -330,8 +330,12 @@ class Impl:
         else:
             items = []
             for key, tmpl in env.cache.items():
-                ref, name = key
-                items.append((self.loaders.index(ref()), name, tmpl.render(), bool(tmpl.is_up_to_date)))
+                try:
+                    ref, name = key
+                    li = self.loaders.index(ref())
+                except Exception:  # noqa: BLE001 - a key of another shape is a cache-state mismatch, not a crash
+                    li, name = "?", repr(key)
+                items.append((li, name, tmpl.render(), bool(tmpl.is_up_to_date)))
             cache = tuple(items) if self.size > 0 else tuple(sorted(items))
         return (self.contents(), active, cache)
 
